@@ -3,6 +3,8 @@
    <<chrom, start, end, id>> where id identifies the rest-of-line text (its 1-based position in
    the input), so "the same entries in input order" is sequence equality even for duplicates. *)
 EXTENDS BBICommon
+RECURSIVE FlattenB(_)
+FlattenB(ss) == IF ss = <<>> THEN <<>> ELSE Head(ss) \o FlattenB(Tail(ss))
 
 HasZeroZero(items) == \E i \in 1..Len(items) : Start(items[i]) = 0 /\ End(items[i]) = 0   \* F11 class
 
@@ -51,4 +53,69 @@ ZoomsOKB(items, zooms) ==
   /\ \A k \in 1..Len(zooms) : /\ ZoomLevelOKB(items, zooms[k])
                               /\ \A i \in 1..Len(zooms[k].recs) : zooms[k].recs[i][1] \in Range(ChromsOf(items))
                               /\ \A i \in 2..Len(zooms[k].recs) : zooms[k].recs[i-1][1] <= zooms[k].recs[i][1]
+
+(* --------------------------- mechanism --------------------------------- *)
+(* The sweep line of the bigBed writer (add_interval_to_summary / process_val_zoom): `ov` is the list
+   of depth segments <<start, end, depth>> still open, contiguous from its first start.  Per entry:
+   (1) every segment from the front gains depth 1 until one reaches past the entry's end (it is split
+   there), (2) the part of the entry beyond the last segment becomes a new depth-1 segment, (3) everything
+   before the next entry's start is final and is emitted.  The summary adds up emitted pieces of positive
+   length; each zoom level tiles them (BBICommon!TileSeg); at the last entry of a chromosome every emitted
+   piece closes the live record. *)
+Inf == 1000000
+RECURSIVE IncSegs(_, _)
+IncSegs(ov, e) ==
+  IF ov = <<>> THEN <<>>
+  ELSE LET h == Head(ov) IN
+       IF e < h[2] THEN << <<h[1], e, h[3] + 1>>, <<e, h[2], h[3]>> >> \o Tail(ov)
+       ELSE << <<h[1], h[2], h[3] + 1>> >> \o IncSegs(Tail(ov), e)
+WithTail(ov, s, e) == IF ov = <<>> THEN << <<s, e, 1>> >>
+                      ELSE IF Last(ov)[2] < e THEN Append(ov, <<Last(ov)[2], e, 1>>) ELSE ov
+RECURSIVE FlushR(_, _, _)
+FlushR(ov, ns, acc) ==       \* <<emitted pieces, remaining list>>
+  IF ov = <<>> \/ Head(ov)[1] >= ns THEN <<acc, ov>>
+  ELSE LET h == Head(ov) IN
+       IF h[2] <= ns THEN FlushR(Tail(ov), ns, Append(acc, h))
+       ELSE <<Append(acc, <<h[1], ns, h[3]>>), << <<ns, h[2], h[3]>> >> \o Tail(ov)>>
+SweepStep(ov, s, e, ns) == FlushR(WithTail(IncSegs(ov, e), s, e), ns, <<>>)
+\* all pieces emitted for the entries of one chromosome, grouped per entry: << <<pieces>>, ... >>
+RECURSIVE SweepAll(_, _, _)
+SweepAll(its, k, ov) ==
+  IF k > Len(its) THEN <<>>
+  ELSE LET ns == IF k < Len(its) THEN its[k + 1][2] ELSE Inf
+           r == SweepStep(ov, its[k][2], its[k][3], ns) IN
+       <<r[1]>> \o SweepAll(its, k + 1, r[2])
+\* summary of one chromosome: statistics over emitted pieces of positive length (<<>> if none)
+PiecesOf(its) == SelectSeq(FlattenB(SweepAll(its, 1, <<>>)), LAMBDA p : p[2] > p[1])
+MechChromSummary(its) ==
+  LET ps == PiecesOf(its) IN
+  IF ps = <<>> THEN <<>>
+  ELSE << [bases |-> SeqSum(Map(LAMBDA p : p[2] - p[1], ps)), sum |-> SeqSum(Map(LAMBDA p : (p[2] - p[1]) * p[3], ps)),
+           sumsq |-> SeqSum(Map(LAMBDA p : (p[2] - p[1]) * p[3] * p[3], ps)),
+           min |-> SetMin({p[3] : p \in Range(ps)}), max |-> SetMax({p[3] : p \in Range(ps)})] >>
+RECURSIVE MechParts(_, _)
+MechParts(items, cs) == IF cs = <<>> THEN <<>> ELSE MechChromSummary(ItemsOf(items, Head(cs))) \o MechParts(items, Tail(cs))
+MechSummary(items) ==
+  LET parts == MechParts(items, ChromsOf(items)) IN
+  IF parts = <<>> THEN [bases |-> 0, sum |-> 0, sumsq |-> 0, min |-> 0, max |-> 0, int |-> 1]
+  ELSE [bases |-> SeqSum(Map(LAMBDA p : p.bases, parts)), sum |-> SeqSum(Map(LAMBDA p : p.sum, parts)),
+        sumsq |-> SeqSum(Map(LAMBDA p : p.sumsq, parts)), min |-> SetMin({p.min : p \in Range(parts)}),
+        max |-> SetMax({p.max : p \in Range(parts)}), int |-> 1]
+\* zoom records of one chromosome at resolution r
+RECURSIVE TilePieces(_, _, _, _, _, _)
+TilePieces(c, r, live, recs, ps, closeEach) ==     \* returns <<live, recs>>
+  IF ps = <<>> THEN <<live, recs>>
+  ELSE LET t == TileSeg(c, r, live, recs, Head(ps)[1], Head(ps), Head(ps)[1])
+           cl == closeEach /\ t[1][1] IN
+       TilePieces(c, r, IF cl THEN NoLive ELSE t[1],
+                  IF cl THEN Append(t[2], <<c, t[1][2], t[1][3], t[1][4], t[1][5], t[1][6], t[1][7], t[1][8]>>) ELSE t[2],
+                  Tail(ps), closeEach)
+RECURSIVE ZoomFold(_, _, _, _, _, _)
+ZoomFold(c, r, groups, k, live, recs) ==
+  IF k > Len(groups) THEN recs
+  ELSE LET t == TilePieces(c, r, live, recs, groups[k], k = Len(groups)) IN ZoomFold(c, r, groups, k + 1, t[1], t[2])
+ZoomRecsB(items, c, r) == ZoomFold(c, r, SweepAll(ItemsOf(items, c), 1, <<>>), 1, NoLive, <<>>)
+RECURSIVE ZoomRecsAllB(_, _, _)
+ZoomRecsAllB(items, cs, r) == IF cs = <<>> THEN <<>> ELSE ZoomRecsB(items, Head(cs), r) \o ZoomRecsAllB(items, Tail(cs), r)
+ModelZoomsB(items, zl) == [k \in 1..Len(zl) |-> [res |-> zl[k], recs |-> ZoomRecsAllB(items, ChromsOf(items), zl[k])]]
 =============================================================================
